@@ -1,2 +1,47 @@
--- stub: replaced when the area is built
-def main : IO Unit := pure ()
+import Nstd.Common.Basic
+import Nstd.Path.Model
+/-
+  Line protocol of the Path area (property C19).  Path ops are stateless:
+     dir <hex> | base <hex> <hexext> | stem <hex> <hexext> | ext <hex> | simp <hex> |
+     abs <hex> | rel <hexfrom> <hexto>
+  each answers one line: the returned string in hex (`-` = empty) resp. `0`/`1`.
+-/
+open Nstd.Common
+namespace Nstd.Path
+
+/-- C strings: no NUL byte -/
+def okStr (b : Bytes) : Bool := b.all (fun c => c != 0)
+
+def pathOp (ws : List String) : Option String :=
+  match ws with
+  | ["dir", p] => do let p ← fromHex p; if okStr p then pure (toHex (getDirectoryName p)) else none
+  | ["base", p, e] => do
+      let p ← fromHex p; let e ← fromHex e
+      if okStr p && okStr e then pure (toHex (getBaseName p e)) else none
+  | ["stem", p, e] => do
+      let p ← fromHex p; let e ← fromHex e
+      if okStr p && okStr e then pure (toHex (getStem p e)) else none
+  | ["ext", p] => do let p ← fromHex p; if okStr p then pure (toHex (getExtension p)) else none
+  | ["simp", p] => do let p ← fromHex p; if okStr p then pure (toHex (simplifyPath p)) else none
+  | ["abs", p] => do let p ← fromHex p; if okStr p then pure (if isAbsolutePath p then "1" else "0") else none
+  | ["rel", f, t] => do
+      let f ← fromHex f; let t ← fromHex t
+      if okStr f && okStr t then pure (toHex (getRelativePath f t)) else none
+  | _ => none
+
+structure St where
+  dummy : Unit := ()
+
+def init0 : St := {}
+
+def stepLine (st : St) (ws : List String) : St × String :=
+  match ws with
+  | ["reset"] => (init0, "ok")
+  | _ =>
+    match pathOp ws with
+    | some out => (st, out)
+    | none => (st, "bad-op")
+
+end Nstd.Path
+
+def main : IO Unit := Nstd.Common.ioLoop Nstd.Path.init0 Nstd.Path.stepLine
